@@ -193,3 +193,14 @@ def _conj_last_hint(s, rho):
 @lemma(hint=_conj_last_hint)
 def conj_last(s: 'Seq[Expr]', rho: 'Env') -> 'Bool':
     return len(s) == 0 or (s[:-1] + (s[-1],) == s and conj(s, rho) == (conj(s[:-1], rho) and ev(s[-1], rho)))
+
+
+# ---- stored type sets do not matter to the reference queries either (proved: one unfolding)
+
+def _patm(e, t, a):
+    return mentions(with_dt(e, t), a)
+
+
+@lemma(auto=('mentions',), patterns=_patm)
+def mentions_ignores_types(e: 'Expr', t: 'DT', a: 'Str') -> 'Bool':
+    return mentions(with_dt(e, t), a) == mentions(e, a)
